@@ -888,7 +888,11 @@ fn k_scn(wakes: usize, also_waitable: bool, allow_cancel: bool) -> &'static str 
                     with(|h| {
                         if let host::TaskStatus::Waiting(s) = h.tasks[0].status {
                             if h.ready(s).is_empty() {
-                                violation("C23", "wakeup:no-event-for-waiting-task", format!("the task waits on set {s}; another party woke it, but no event became ready in that set (the wake cannot reach the task until an unrelated waitable fires)"));
+                                let msg = format!("the task waits on set {s}; another party woke it, but no event became ready in that set (the wake cannot reach the task until an unrelated waitable fires)");
+                                violation("C23", "wakeup:no-event-for-waiting-task", msg.clone());
+                                // also inconsistent as a callback answer: WAIT on a set that cannot
+                                // deliver what the task is pending on
+                                violation("C22", "wait:set-cannot-deliver-pending-wakeup", msg);
                             }
                         }
                     });
